@@ -4,7 +4,7 @@
 enum { K_EMIT_A = 50, K_NOISE = 51, K_QUERY_B = 52, K_HELLO_X = 53 };
 // K_EMIT_A: blob = descriptors (kind, pause, src_sel, dst_sel as 1 byte each => 4 bytes per descriptor); a: seq
 //   src_sel: 0 = A's address, 1..3 = other addresses ; dst_sel: 0 = B, 1..3 = third stations
-// K_NOISE: a: which (0 probe between third stations, 1 foreign Hello to both, 2 probe from third station to A)
+// K_NOISE: a: which (0 probe between third stations, 1 foreign Hello to both, 2 probe from third station to A, 3/4 large-TLV requests, 5 unrelated probe to B, 6 the mapper's Discover again: service, generation, acknowledging)
 
 static Verdict run(const Case &c) {
     Verdict v;
@@ -60,7 +60,7 @@ static Verdict run(const Case &c) {
                     e.src = srcsel(op.blob[k + 2]); e.dst = (op.blob[k + 3] & 3) == 0 ? B : third(op.blob[k + 3] & 3);
                     d.push_back(e);
                 }
-                uint16_t seq = (uint16_t)op.arg(0); if (!seq) seq = 1;
+                uint16_t seq = (uint16_t)op.arg(0);   // 0 included: an Emit that asks for no acknowledgement is carried out all the same
                 // what the mapper orders must show up in B's report (C06 obliges A to emit it); checked in addition to what A really put on the wire
                 for (auto &e : d) if (e.dst == B) must.insert(QDesc{0, A, e.src, B});
                 std::vector<Ev> tx = sends_only(w.deliver(ia, mk_emit(A, M, A, M, seq, d)));
@@ -84,6 +84,7 @@ static Verdict run(const Case &c) {
                         : k == 1 ? mk_hello(third(3), 0, 9, M, M)
                         : k == 2 ? mk_simple(A, third(1), 0, OP_TRAIN, A, third(1), 0)
                         : k == 5 ? mk_simple(B, srcsel(1 + (int)(op.arg(1, 1) & 1)), 0, OP_PROBE, B, third(1), 0)   // unrelated probe to B whose Ethernet source coincides with a source A is told to spoof
+                        : k == 6 ? mk_discover(M, M, (uint8_t)(op.arg(1) & 1), (uint16_t)(op.arg(1) >> 1), (uint16_t)op.arg(2), k == 6 && (op.arg(1) & 2) ? std::vector<Mac>{A, B} : std::vector<Mac>{})   // the mapper repeats its Discover (either service, any generation, acknowledging or not)
                         : k == 3 ? mk_qlt(A, third(2), A, third(2), (uint16_t)op.arg(1, 1), 0x11, 0, 1)     // quick-discovery request from another station
                                  : mk_qlt(A, M, A, M, (uint16_t)op.arg(1, 1), 0x0E, 0, 0);                  // the mapper fetches the icon in between
                 (void)w.deliver(ib, f); (void)w.deliver(ia, f);
@@ -137,7 +138,7 @@ int main(int argc, char **argv) {
             Op o;
             int k = *gx::range<int>(0, 9);
             if (k <= 5) {
-                o.kind = K_EMIT_A; o.a = {*hg::seq_gen()};
+                o.kind = K_EMIT_A; o.a = {*hg::seq0_gen()};
                 int nd = *gx::range<int>(1, 6);
                 for (int i = 0; i < nd; i++) {
                     o.blob.push_back((uint8_t)*gx::pick({0, 1}));
@@ -145,7 +146,7 @@ int main(int argc, char **argv) {
                     o.blob.push_back((uint8_t)*gx::pick({0, 0, 0, 1, 2, 200, 250}));
                     o.blob.push_back((uint8_t)*gx::pick({0, 0, 0, 1, 2, 3}));
                 }
-            } else if (k <= 7) { o.kind = K_NOISE; o.a = {*gx::range<int64_t>(0, 5), *hg::seq_gen()}; }
+            } else if (k <= 7) { o.kind = K_NOISE; o.a = {*gx::range<int64_t>(0, 6), *hg::seq_gen(), *hg::gen_gen()}; }
             else { o.kind = K_QUERY_B; o.a = {*hg::seq_gen()}; }
             return o;
         })));
